@@ -10,7 +10,7 @@ M = [
  ("c08-expiry-in-seconds", "C08", "src/store/mod.rs", "created_ms.saturating_add(ttl.as_millis() as u64)", "created_ms.saturating_add(ttl.as_secs())"),
  ("c09-ephemeral-stored", "C09", "src/store/mod.rs", "        if frame.ttl != Some(TTL::Ephemeral) {\n            self.insert_frame(&frame)?;", "        {\n            self.insert_frame(&frame)?;"),
  ("c09-skip-keep-plus-one", "C09", "src/store/mod.rs", ".skip(keep as usize)", ".skip(keep as usize + 1)"),
- ("c03-dedupe-strict", "C03", "src/store/mod.rs", "if frame.id <= last_scanned_id {", "if frame.id < last_scanned_id {"),
+ ("c03-scan-not-bounded-by-handoff", "C03", "src/store/mod.rs", "                        if frame.id > handoff_id {\n                            break;\n                        }\n", ""),
  ("c03-no-live-context-filter", "C06", "src/store/mod.rs", "                            if frame.context_id != context_id {\n                                continue;\n                            }\n", ""),
  ("c13-delete-is-a-noop", "C13", "src/api.rs", "    match store.remove(&id) {", "    match Ok::<(), crate::error::Error>(()) {"),
  ("c12-ttl-query-in-seconds", "C12", "src/store/ttl.rs", "TTL::Time(duration) => format!(\"ttl=time:{}\", duration.as_millis()),", "TTL::Time(duration) => format!(\"ttl=time:{}\", duration.as_secs()),"),
@@ -20,7 +20,8 @@ M = [
  ("c20-import-rewrites-id", "C20", "src/api.rs", "    let frame: Frame = match serde_json::from_slice(&bytes) {\n        Ok(frame) => frame,", "    let frame: Frame = match serde_json::from_slice::<Frame>(&bytes) {\n        Ok(mut frame) => {\n            if frame.ttl == Some(TTL::Forever) {\n                frame.ttl = None;\n            }\n            frame\n        }"),
  ("c08-stale-topic-index-miscounts-head", "C08", "src/store/mod.rs", "        batch.remove(&self.idx_topic, topic_key);\n", ""),
  ("c02-id-outside-lock-no-hook-between", "C02", "src/store/mod.rs", "        let _append_guard = self.append_lock.lock().unwrap();\n        frame.id = scru128::new();\n", "        frame.id = scru128::new();\n        let _append_guard = self.append_lock.lock().unwrap();\n"),
- ("c02-broadcast-outside-lock", "C02", "src/store/mod.rs", "        let _append_guard = self.append_lock.lock().unwrap();\n", "        let _append_guard = if frame.topic == \"xs.context\" { Some(self.append_lock.lock().unwrap()) } else { None };\n"),
+ ("c02-broadcast-outside-lock", "C02", "src/store/mod.rs", "        let _append_guard = self.append_lock.lock().unwrap();\n        frame.id = scru128::new();\n", "        let _append_guard = if frame.topic == \"xs.context\" { Some(self.append_lock.lock().unwrap()) } else { None };\n        frame.id = scru128::new();\n"),
+ ("c03-handoff-id-before-the-lock", "C03", "src/store/mod.rs", "            let _append_guard = self.append_lock.lock().unwrap();\n            (Some(self.broadcast_tx.subscribe()), Some(scru128::new()))", "            let handoff = scru128::new();\n            #[cfg(feature = \"verif\")]\n            self.verif.point_lock(\"read.lock\", &self.append_lock);\n            let _append_guard = self.append_lock.lock().unwrap();\n            (Some(self.broadcast_tx.subscribe()), Some(handoff))"),
  ("c04-ack-before-remove-sync", "C04", "src/store/mod.rs", "        batch.commit()?;\n        self.keyspace.persist(fjall::PersistMode::SyncAll)?;\n        #[cfg(feature = \"verif\")]\n        self.verif.point(\"commit.post\", Some(&frame));", "        batch.commit()?;\n        self.keyspace.persist(fjall::PersistMode::Buffer)?;\n        #[cfg(feature = \"verif\")]\n        self.verif.point(\"commit.post\", Some(&frame));"),
 ]
 sel = sys.argv[1] if len(sys.argv) > 1 else ""
